@@ -7,7 +7,9 @@ import (
 	"strings"
 )
 
-var keyPool = []string{`"a"`, `"b"`, `"a"`, `"a"`, `"k\n"`, `"\""`, `""`, `"é"`, `"é"`, "\"\xff\"", "\"\xfe\"", `"\ud800"`, `"�"`, `"long key with spaces"`, `"a"`}
+var keyPool = []string{`"a"`, `"b"`, `"a"`, `"a"`, `"k\n"`, `"\""`, `""`, `"é"`, `"é"`, "\"\xff\"", "\"\xfe\"", `"\ud800"`, `"�"`, `"long key with spaces"`, `"a"`,
+	// escapes exactly at the end / start of the name (the name is unescaped on its own, without the closing quote behind it)
+	`"rat\ud83d\udc00"`, `"rat🐀"`, `"\ud83d\udc00"`, `"\ud83d\udc00x"`, `"k\u00e9"`, `"\u00e9"`, `"x\\"`, `"\ud83d"`, `"q\ud83d\u0041"`}
 
 func genTree(r *rng, depth int) string {
 	k := r.intn(12)
@@ -156,6 +158,21 @@ func init() {
 			}
 			e.emit("compose %s 3 all", hs([]byte(iv)))
 			e.emit("compose %s 3 all", hs([]byte(" "+iv)))
+		}
+		// members that are almost values: a number with something glued to its exponent, a string with a
+		// raw control byte - nested inside members that the decoder skips, reads, or hands to a nested handler
+		almost := []string{"1e5-3", "2E3+7", "1.5e3-", "0e0+0", "1e5+", "-0.5e-3-2", "01", "-01", "1.", "-", "1e", "1.e3", "0x10", "1e5.5", "1.5.5", "+1", ".5", "tru", "nulll", "truefalse"}
+		for c := 0; c < 0x20; c++ {
+			almost = append(almost, "\"ba"+string(rune(c))+"r\"")
+		}
+		almost = append(almost, "\"\x7f\"", "\"\\x\"", "\"\\u12\"")
+		for _, bad := range almost {
+			for _, tmpl := range []string{`[[%s],"x"]`, `{"a":{"b":%s},"c":1}`, `[%s]`, `[1,%s]`, `{"foo":%s,"baz":true}`, `[[[%s]]]`, `%s`} {
+				d := hs([]byte(fmt.Sprintf(tmpl, bad)))
+				for seed := 0; seed < 12; seed++ {
+					e.emit("compose %s %d %s", d, seed, []string{"mix", "all"}[seed%2])
+				}
+			}
 		}
 		for _, v := range valuePool {
 			for seed := 0; seed < 6; seed++ {
